@@ -19,6 +19,15 @@ def main():
     rep = core.Report("C14")
     quick = core.tier() == "quick"
     rng = random.Random(core.seed() * 7919 + 14)
+    # (A): a theorem of the language model itself - every token string the model's precedence parser accepts is derivable by the
+    # recogniser (all strings up to length 4 / 5 over one token per class); some strings do parse (the theorem is not vacuous)
+    import langmc
+    r = langmc.run("C14_subset", "strings", maxl=4 if quick else 5)
+    rep.add_mc("LangMC!SubsetThm: ParseAssertion accepts => Derivable, for all token strings up to length %d over 17 token classes" % (4 if quick else 5), r)
+    if r["violated"]:
+        rep.mc_violation("LangMC_SubsetThm", r)
+    rr = langmc.run("C14_subset_nv", "strings", maxl=3, invariant="NoneParses", expect_violation=True)
+    rep.extra["non_vacuity"] = {"some string of length <= 3 is accepted by the parser model": rr["violated"]}
     cases = []
     # (1) exhaustive short token strings over a reduced alphabet (one representative per class)
     reps = [lang.T("id", "x", "x"), lang.T("num", 1, "1"), lang.T("("), lang.T(")"), lang.T("["), lang.T("]"), lang.T(","), lang.T(";"),
